@@ -26,7 +26,10 @@ META = {
     "missing}; each at top level, inside for, inside with, inside a macro, after a top-level set; main and helper with "
     "and without template-level globals; helper shapes = subsets of {public macro, private macro, top-level "
     "assignment, private assignment, assignment inside if, assignment inside for, own import-as, own from-import with "
-    "context} (quick: empty, each single feature, all; thorough: all 256). The helper prints a render variable, the "
+    "context} (quick: empty, each single feature, all; thorough: all 256). Sequences: a first include / import with context "
+    "inside for / with / macro where a local is live, followed after the scope by a second include / from-import / "
+    "direct print that must no longer see that local (with and without a render variable of the same name; main "
+    "template without top-level assignments). The helper prints a render variable, the "
     "includer's local, an environment global, the includer's template global and its own template global; compared: "
     "the whole rendered text / exception class, and for Template.module / make_module(vars) the exposed names "
     "(dir() minus the class's, hasattr over a probe list), str(module) and exported values.",
